@@ -99,16 +99,26 @@ class Expander:
         T <= N, which makes the expansion exact (models with longer sequences are simply not searched)."""
         N = self.int_bound
         if t.is_forall():
-            if not (z3.is_app(body) and body.decl().kind() == z3.Z3_OP_IMPLIES):
+            if z3.is_app(body) and body.decl().kind() == z3.Z3_OP_IMPLIES:
+                todo = [body.arg(0)]
+            elif z3.is_or(body):     # simplified implication: Or(Not(guard), ...)
+                todo = [d.arg(0) for d in body.children() if z3.is_not(d)]
+                if not todo:
+                    return {}
+            else:
                 return {}
-            guard = body.arg(0)
         else:
-            guard = body
-        conj, todo = [], [guard]
+            todo = [body]
+        conj = []
         while todo:    # nested conjunctions are flattened: And(And(0 <= i, i < n), filter) bounds i as well
             g = todo.pop()
             if z3.is_and(g):
                 todo.extend(g.children())
+            elif z3.is_not(g) and z3.is_app(g.arg(0)) and g.arg(0).num_args() == 2 and g.arg(0).decl().kind() in (
+                    z3.Z3_OP_LE, z3.Z3_OP_LT, z3.Z3_OP_GE, z3.Z3_OP_GT):
+                # simplified comparisons: Not(a <= b) is b < a, ...
+                a, b = g.arg(0).arg(0), g.arg(0).arg(1)
+                conj.append({z3.Z3_OP_LE: b < a, z3.Z3_OP_LT: b <= a, z3.Z3_OP_GE: a < b, z3.Z3_OP_GT: a <= b}[g.arg(0).decl().kind()])
             else:
                 conj.append(g)
         ids = {c.get_id(): k for k, c in enumerate(cs)}
